@@ -31,7 +31,9 @@ ASSUMPTIONS = [
 
 
 def BOUNDS(tier):
-    return {'max_classes': 3 if tier == 'quick' else 4, 'permutations': 'all (<= 24)',
+    return {'max_classes': 3 if tier == 'quick' else 4,
+            'permutations': 'all registration orders (<= 24) for the root and Optional positions and for Unions over <= 3 classes; '
+                            'identity and reversed order for Union positions of four-class models; both Union member orders always',
             'models': len(cat(tier))}
 
 
@@ -79,6 +81,10 @@ _CAT = {}
 def cat(tier):
     if tier not in _CAT:
         c = [('hier-' + n, s) for n, s in catalog.hierarchy_models(3 if tier == 'quick' else 4)]
+        # selected five-class shapes (all 120 registration orders, root position only)
+        for shape in ('diamondx', 'diamondy', 'diamondz'):
+            for adds in (['none'] * 4, ['none', 'none', 'none', 'req'], ['opt', 'none', 'none', 'none']):
+                c.append(('hier5-' + shape, catalog.hierarchy(shape, adds, None, None)))
         if tier == 'quick':
             # a slice of the four-class shapes (the diamond and the three-way fork need four classes)
             for shape in ('diamond', 'fork3', 'chainfork'):
@@ -169,7 +175,14 @@ def run_unit(unit, tier):
     trees = docs_for(spec)
     perms = list(itertools.permutations(range(len(b.registered))))
     loads = {}
-    for variants in expected_types(spec, unions=not fam.startswith(('onerec', 'hier4'))):
+    all_perms = perms
+    for variants in expected_types(spec, unions=not fam.startswith(('onerec', 'hier4', 'hier5'))):
+        # with four classes the Union positions are explored under the identity and the reversed registration order
+        # only (both member orders); the root and Optional positions under all 24 orders
+        if len(all_perms) > 6 and variants[0][0] == 'union':
+            perms = [all_perms[0], all_perms[-1]]
+        else:
+            perms = all_perms
         # with a K-member model the K-member Union orders are the permutations explored
         for d in trees:
             for tg in tags:
